@@ -159,6 +159,11 @@ class Fixture:
         os.makedirs(TMP, exist_ok=True)
         self.path = os.path.join(TMP, name or ("t%d.biom" % n))
         t = core.build(spec, route)
+        if spec.get("gmd"):
+            # group metadata travels in the HDF5 file; the property does not speak about it (and load-then-
+            # filter(inplace=False) itself drops it), so it is present but not judged
+            t._observation_group_metadata = {"tree": ("newick", "(%s);" % ",".join("o%d" % i for i in range(len(spec["obs"]))))}
+            t._sample_group_metadata = {"graph": ("newick", "(a,(b,c));")}
         # the writers see the table in whatever layout earlier reads left behind
         prng = random.Random(poke) if poke is not None else None
         self.poked = core.poke_layout(t, prng, 3) if prng else []
@@ -251,13 +256,16 @@ def make_call(fx, variant, ids, axis, ser="writer", how="list", form="str", opts
     from biom.cli.table_subsetter import _subset_table
     opts = opts or {}
     pf = PARSE_FS[opts["parse_fs"]] if opts.get("parse_fs") else None
+    # ONE request object per call, handed to the reader as it is (and inspected afterwards)
+    passed = as_container(ids, how) if variant in ("h5", "h5nomd") else \
+        (ids if opts.get("same_list") else list(ids))
 
     def opened():
         return contextlib.nullcontext(handle) if handle is not None else h5py.File(fx.path, "r")
     if variant == "h5":
         def f():
             with opened() as h:
-                c = as_container(ids, how)
+                c = passed
                 if opts.get("positional"):
                     return Table.from_hdf5(h, c, axis, pf, True)
                 if opts.get("explicit_md"):
@@ -269,17 +277,17 @@ def make_call(fx, variant, ids, axis, ser="writer", how="list", form="str", opts
         def f():
             with opened() as h:
                 if opts.get("positional"):
-                    return Table.from_hdf5(h, as_container(ids, how), axis, None, False)
-                return Table.from_hdf5(h, ids=as_container(ids, how), axis=axis, subset_with_metadata=False)
+                    return Table.from_hdf5(h, passed, axis, None, False)
+                return Table.from_hdf5(h, ids=passed, axis=axis, subset_with_metadata=False)
     elif variant == "parseh5":
         def f():
             with opened() as h:
                 if opts.get("positional"):
-                    return parse_biom_table(h, list(ids), axis)
-                return parse_biom_table(h, ids=list(ids), axis=axis)
+                    return parse_biom_table(h, passed, axis)
+                return parse_biom_table(h, ids=passed, axis=axis)
     elif variant == "cmdh5":
         def f():
-            t, fmt = _subset_table(fx.path, None, axis, list(ids))
+            t, fmt = _subset_table(fx.path, None, axis, passed)
             assert fmt == "hdf5"
             return t
     elif variant == "jsonparse":
@@ -287,33 +295,39 @@ def make_call(fx, variant, ids, axis, ser="writer", how="list", form="str", opts
 
         def f():
             if form == "handle":
-                return parse_biom_table(io.StringIO(txt), ids=list(ids), axis=axis)
+                return parse_biom_table(io.StringIO(txt), ids=passed, axis=axis)
             if form == "lines":
-                return parse_biom_table(txt.splitlines(True), ids=list(ids), axis=axis)
+                return parse_biom_table(txt.splitlines(True), ids=passed, axis=axis)
             if opts.get("positional"):
-                return parse_biom_table(txt, list(ids), axis, False)
-            return parse_biom_table(txt, ids=list(ids), axis=axis)
+                return parse_biom_table(txt, passed, axis, False)
+            return parse_biom_table(txt, ids=passed, axis=axis)
     elif variant == "cmdjson":
         txt = text if text is not None else serialise(fx, ser)
 
         def f():
-            gen, fmt = _subset_table(None, txt, axis, ids if opts.get("same_list") else list(ids))
+            gen, fmt = _subset_table(None, txt, axis, passed)
             assert fmt == "json"
             return Table.from_json(json.loads("".join(gen)))
     else:
         raise ValueError(variant)
+    call = f
     if opts.get("profile"):
         import biom.err
 
-        def g():
+        def call():
             with biom.err.errstate(empty=opts["profile"]):
                 return f()
-        return g
-    return f
+    call.passed = passed
+    return call
 
 
 def real_result(fx, variant, ids, axis, ser="writer", how="list", form="str", opts=None):
-    return res_of(make_call(fx, variant, ids, axis, ser, how, form, opts))
+    call = make_call(fx, variant, ids, axis, ser, how, form, opts)
+    res, note = res_of(call)
+    want = as_container(ids, how) if variant in ("h5", "h5nomd") else list(ids)
+    if note is None and [str(x) for x in call.passed] != [str(x) for x in want]:
+        note = "the reader changed the request object it was given"
+    return res, note
 
 
 IDS_DECOS = ["plain", "columns", "trail", "crlf", "comments", "noeol"]
@@ -535,7 +549,16 @@ def check_text(ctx, fx, ids, axis, ser):
 SAFE_ODD = [x for x in core.ODD_IDS if not scanner_confused(x)]
 
 
+SAFE_NASTY = [x for x in core.NASTY_TEXTS if not scanner_confused(x)]
+
+
 def gen_ids(rng, n, prefix):
+    if rng.random() < 0.25:
+        # texts that trip naive text handling; NFC and NFD spellings of one text as two DISTINCT IDs of the axis
+        pool = [prefix + x for x in SAFE_NASTY] + [prefix + x for x in core.twin_ids(rng, 2)] + \
+               [prefix + x for x in core.ASCII_IDS[:4]]
+        rng.shuffle(pool)
+        return pool[:n]
     pool = [prefix + x for x in core.ASCII_IDS] + [prefix + x for x in SAFE_ODD] + \
            [prefix + x for x in ["[b]", "{c}", 'q"q"', "a,b", "k:v", "sp ace ", "ñandú", "\\", "tab-less", "end\n", "ééééééééé", "日本語のサンプル"]]
     rng.shuffle(pool)
@@ -547,8 +570,22 @@ def gen_spec(rng, max_n, max_m):
     m = rng.randint(1, max_m)
     obs = gen_ids(rng, n, "O")
     samp = gen_ids(rng, m, "S")
-    classes = rng.choice([("count",), ("count", "dyadic"), ("neg", "dyadic", "count"), ("tiny", "big", "count")])
-    spec = {"obs": obs, "samp": samp, "rows": core.gen_grid(rng, n, m, None, classes),
+    if rng.random() < 0.15:
+        # the same names on both axes (no prefix: IDs may begin with a blank, '#', '"' or '%')
+        names = gen_ids(rng, max(n, m), "")
+        obs, samp = names[:n], list(reversed(names))[:m]
+    classes = rng.choice([("count",), ("count", "dyadic"), ("neg", "dyadic", "count"), ("tiny", "big", "count"),
+                          ("neg", "dyadic"), ("bits", "count"), ("count", "dyadic", "huge-int")])
+    if "huge-int" in classes:
+        classes = tuple(c for c in classes if c != "huge-int")
+        grid = core.gen_grid(rng, n, m, None, classes)
+        for r in grid:
+            for j in range(m):
+                if r[j] and rng.random() < 0.3:
+                    r[j] = float(rng.choice([2 ** 24 + 1, 2 ** 31 + 7, 2 ** 53 - 1, -(2 ** 24) - 3, 1 / 3, 0.1, -2 / 7]))
+    else:
+        grid = core.gen_grid(rng, n, m, None, classes)
+    spec = {"obs": obs, "samp": samp, "rows": grid,
             "omd": core.gen_md(rng, obs), "smd": core.gen_md(rng, samp), "type": rng.choice(core.TYPES)}
     if spec["omd"] and rng.random() < 0.3:
         for i, e in enumerate(spec["omd"]):
@@ -558,6 +595,50 @@ def gen_spec(rng, max_n, max_m):
             e["data"] = 'say "hi" [%d]' % i
             e["shape"] = "x:y,z"
     return spec
+
+
+def plant_cancellations(rng, spec):
+    """rewrite some vectors so that, within a chosen group of IDs of the other axis, the entries are non-zero but
+    cancel exactly (v, -v; a, b, -(a+b); dyadic values), or are all negative; returns the requests that keep exactly
+    such a group (and the group plus one more ID): [(axis, ids)]"""
+    rows, obs, samp = spec["rows"], spec["obs"], spec["samp"]
+    n, m = len(obs), len(samp)
+    reqs = []
+
+    def values(k):
+        vs = [rng.choice([1, 2, 3, 5]) / float(2 ** rng.randint(0, 3)) * rng.choice([1, -1]) for _ in range(k - 1)]
+        return vs + [-sum(vs)]
+    if m >= 2:
+        for i in rng.sample(range(n), min(n, rng.randint(1, 2))):
+            grp = sorted(rng.sample(range(m), rng.randint(2, min(3, m))))
+            kind = rng.choice(["cancel", "cancel", "negative"])
+            vals = values(len(grp)) if kind == "cancel" else [-float(rng.randint(1, 4)) for _ in grp]
+            for j, v in zip(grp, vals):
+                rows[i][j] = v
+            if rng.random() < 0.5:
+                for j in range(m):
+                    if j not in grp:
+                        rows[i][j] = 0.0           # nothing of the vector survives outside the group
+            ids = [samp[j] for j in grp]
+            rng.shuffle(ids)
+            reqs.append(("sample", ids))
+            rest = [samp[j] for j in range(m) if j not in grp]
+            if rest:
+                reqs.append(("sample", ids + [rng.choice(rest)]))
+    if n >= 2:
+        for j in rng.sample(range(m), min(m, rng.randint(1, 2))):
+            grp = sorted(rng.sample(range(n), rng.randint(2, min(3, n))))
+            kind = rng.choice(["cancel", "cancel", "negative"])
+            vals = values(len(grp)) if kind == "cancel" else [-float(rng.randint(1, 4)) for _ in grp]
+            for i, v in zip(grp, vals):
+                rows[i][j] = v
+            ids = [obs[i] for i in grp]
+            rng.shuffle(ids)
+            reqs.append(("observation", ids))
+            rest = [obs[i] for i in range(n) if i not in grp]
+            if rest:
+                reqs.append(("observation", ids + [rng.choice(rest)]))
+    return reqs
 
 
 def requests_for(rng, axis_ids, quick):
@@ -683,7 +764,12 @@ def handle_sequence(ctx, fx, rng):
                 keep_alive.append(t)
                 try:
                     t.transform(lambda v, i, m: v * 3 + 1, axis=rng.choice(["sample", "observation"]), inplace=True)
-                    t.update_ids({i: "zz" + i for i in t.ids()}, axis="sample", inplace=True)
+                    sids = list(t.ids())
+                    if len(sids) > 1 and rng.random() < 0.5:
+                        t.update_ids({sids[i]: sids[(i + 1) % len(sids)] for i in range(len(sids))}, axis="sample",
+                                     inplace=True)         # a rotation: every ID stays in use, on another vector
+                    else:
+                        t.update_ids({i: "zz" + i for i in sids}, axis="sample", inplace=True)
                     t.add_metadata({i: {"k": "changed"} for i in t.ids(axis="observation")}, axis="observation")
                     md = t.metadata(axis="observation")
                     if md:
@@ -717,6 +803,9 @@ def run_fixture(ctx, fx, rng, quick, tags=(), sers=MAIN_SERS, light=False):
         reqs = requests_for(rng, axis_ids, quick)
         if light:
             reqs = reqs[:3]
+        planted = [ids for a, ids in getattr(fx, "planted", []) if a == axis and ids not in reqs]
+        reqs = planted + reqs
+        ctx.count("planted-cancellation-requests", len(planted))
         for ids in reqs:
             how = rng.choice(["list", "list", "tuple", "array", "array-wide", "array-object"])
             check_case(ctx, fx, "h5", ids, axis, how=how, tags=tags, opts=gen_opts(rng, fx, "h5"))
@@ -902,6 +991,22 @@ def large_stream(ctx, rng, n0, quick):
             ctx.count("large:axis>=64")
         finally:
             fx.close()
+    # an axis above 512 IDs
+    axis = rng.choice(["sample", "observation"])
+    n += 1
+    spec = core.wide_spec(rng, n_axis=rng.choice([513, 520, 600]), other=2, axis=axis, md=False)
+    fx = Fixture(spec, "csr" if axis == "observation" else "csc", "x", n)
+    try:
+        axis_ids = spec["samp"] if axis == "sample" else spec["obs"]
+        k = len(axis_ids)
+        for ids in ([axis_ids[k - 1], axis_ids[512], axis_ids[0], axis_ids[511], axis_ids[256]],
+                    rng.sample(axis_ids, 9), [axis_ids[512] + "0", axis_ids[3]]):
+            for variant in ("h5", "h5nomd", "cmdh5", "jsonparse"):
+                check_case(ctx, fx, variant, ids, axis, tags=tags)
+            check_case(ctx, fx, "cmdjson", ids, axis, ser=rng.choice(WIDE_SERS + ["direct_io"]), tags=tags)
+        ctx.count("large:axis>512")
+    finally:
+        fx.close()
     # a text of at least 64 KiB (dense 90 x 62)
     n += 1
     spec = {"obs": ["o%03d" % i for i in range(90)], "samp": ["s%03d" % j for j in range(62)],
@@ -933,7 +1038,7 @@ def state_stream(ctx, rng, n0):
          "rows": [[1, 0, 2, 0], [0, 0, 0, 5], [3, 4, 0, 0]],
          "omd": [{"taxonomy": ["k__A", "p__x"], "grp": "a"}, {"taxonomy": ["k__B", "p__y"], "grp": "b"},
                  {"taxonomy": ["k__C", "p__z"], "grp": "c"}],
-         "smd": [{"grp": "u"}, {"grp": "v"}, {"grp": "w"}, {"grp": "x"}], "type": "OTU table"}
+         "smd": [{"grp": "u"}, {"grp": "v"}, {"grp": "w"}, {"grp": "x"}], "type": "OTU table", "gmd": True}
     b = {"obs": ["O3", "O1", "P9"], "samp": ["S4", "S1"], "rows": [[7, 0], [0, 8], [9, 9]],
          "omd": None, "smd": [{"grp": "q"}, {"grp": "r"}], "type": None}
     tags = ["process-state"]
@@ -1117,15 +1222,19 @@ def run(ctx):
         if first or not quick:
             n = large_stream(ctx, rng, n, quick)
         # 3. main stream
-        n_tables = 32 if quick else max(40, 520 // getattr(ctx, "worker", (0, 1))[1])
+        n_tables = 30 if quick else max(40, 520 // getattr(ctx, "worker", (0, 1))[1])
         routes = ["dense", "csr", "csc", "coo", "csr_unsorted", "csr_zeros", "sort_roundtrip", "lil"]
         gens = ["BIOM-Format 2.1", "x", "généré par é"]
         for k in range(n_tables):
             n += 1
             big = (k % 5 == 4)
             spec = gen_spec(rng, 8 if big else 4, 8 if big else 4)
+            planted = plant_cancellations(rng, spec) if rng.random() < 0.45 else []
+            if k % 5 == 1:
+                spec["gmd"] = True
             fx = Fixture(spec, routes[k % len(routes)], rng.choice(gens), n,
                          poke=rng.randrange(10 ** 6) if k % 3 else None)
+            fx.planted = planted
             ctx.count("stream=main")
             ctx.count("poked=%s" % ("yes" if fx.poked else "no"))
             extra = EXTRA_SERS
